@@ -51,6 +51,8 @@ def cases(tier, rng):
                     yield {'k': 'nil', 'target': t, 'n': n, 'kind': kind}
         for j in range(30):
             yield {'k': 'nil-dist', 'j': j}
+        for lo in range(0, 301 if tier == 'quick' else 1201, 20):
+            yield {'k': 'nil-lengths', 'lo': lo, 'hi': lo + 20, 'target': [None, 17, 200][(lo // 20 + rep) % 3]}
         if rep == 0:
             for lo in range(1, 200001 if tier == 'quick' else 2000001, 10000):
                 yield {'k': 'lvalue', 'lo': lo, 'hi': lo + 10000}
@@ -189,6 +191,16 @@ def run(case, ctx, rng):
                 uses.append(('h(short)', (lambda o: o(b'short input')), None))
                 specs.append(('TLSH%s' % (cfg,), (lambda cfg=cfg: TLSH(*cfg)), uses))
         siblings(ctx, rng, 'siblings:digest==model', specs, late=specs.pop(), family=fam)
+    elif k == 'nil-lengths':
+        from crysp.nilsimsa import Nilsimsa
+        t = case['target']
+        ctx.cls(('nil-lengths', case['lo'] // 100, t))
+        for n in range(case['lo'], case['hi']):
+            d = data(rng, ['rand', 'text'][n % 2], n)
+            ctx.eq('nilsimsa==model', call(lambda: Nilsimsa(t)(d)), sh.nilsimsa(d, 53 if t is None else t), target=t, n=n, data=d[:40])
+            c = n // 2
+            ctx.eq('nilsimsa==model', call(lambda: Nilsimsa(t).update(d[:c]).update(d[c:]).digest()), sh.nilsimsa(d, 53 if t is None else t), target=t, n=n, streamed=True)
+        ctx.exhaustive['nilsimsa at every input length 0..300 (quick) / 0..1200 (thorough)'] += case['hi'] - case['lo']
     elif k == 'nil-dist':
         from crysp.nilsimsa import Nilsimsa, distance
         ctx.cls(('nil-dist', case['j'] % 5))
